@@ -1,5 +1,6 @@
 import DEngine.Model.KV
 import DEngine.Lemmas.KV
+import DEngine.Lemmas.KVScan
 /-!
 # C22 — Key-value commands have the documented semantics on every engine
 
@@ -245,6 +246,18 @@ theorem rocks_get_multi_spec (st : RocksSt) (keys : List Key) :
     ∀ i : Nat, (rocksGetMulti st keys)[i]? = keys[i]?.map (rocksAbs st) := by
   refine ⟨by simp [rocksGetMulti], fun i => ?_⟩
   simp only [rocksGetMulti, List.getElem?_map]; rfl
+
+/-- `scan_prefix` on both engines returns exactly the bindings of the reference store whose key starts with
+    the prefix (RocksDB: via the iterator bounds `[prefix, prefix_successor(prefix))`, any non-empty prefix,
+    0xFF bytes included), so the engines agree with each other and with the spec map.  (States reachable by
+    `apply_chunk` have no duplicate keys: `C25.file_wf_apply`, `C25.rocks_wf_apply`.) -/
+theorem scan_reads_agree (fs : FileSt) (rs : RocksSt) (hf : AMap.WF fs.data) (hr : AMap.WF rs.db)
+    (hsame : fileAbs fs = rocksAbs rs) (p : Bytes) (hp : p ≠ []) (k : Key) (v : Val) :
+    ((k, v) ∈ (fileScan fs p).1 ↔ (startsWith k p = true ∧ fileAbs fs k = some v)) ∧
+    ((k, v) ∈ (rocksScan rs p).1 ↔ (startsWith k p = true ∧ fileAbs fs k = some v)) := by
+  refine ⟨fileScan_exact fs hf p k v, ?_⟩
+  rw [hsame]
+  exact rocksScan_exact rs hr p hp k v
 
 /-! ## non-vacuity: concrete runs (kernel-evaluated on the models) -/
 
